@@ -195,23 +195,36 @@ pub struct KnownFinding {
 }
 
 pub fn read_known(path: &str) -> Vec<KnownFinding> {
+    // line format: `open: property=<id> signature=<sig> <what>` | `fixed: property=<id> <commit> signature=<sig> <what>`
     let mut out = vec![];
     if let Ok(t) = std::fs::read_to_string(path) {
         for line in t.lines() {
             let line = line.trim();
-            if line.is_empty() || line.starts_with('#') {
+            let (status, rest) = if let Some(r) = line.strip_prefix("open:") {
+                ("open", r.trim())
+            } else if let Some(r) = line.strip_prefix("fixed:") {
+                ("fixed", r.trim())
+            } else {
                 continue;
+            };
+            let mut property = String::new();
+            let mut signature = String::new();
+            let mut commit = String::new();
+            let mut what: Vec<&str> = vec![];
+            for tok in rest.split(' ') {
+                if signature.is_empty() {
+                    if let Some(p) = tok.strip_prefix("property=") {
+                        property = p.to_string();
+                    } else if let Some(sg) = tok.strip_prefix("signature=") {
+                        signature = sg.to_string();
+                    } else if !tok.is_empty() {
+                        commit = tok.to_string();
+                    }
+                } else {
+                    what.push(tok);
+                }
             }
-            if let Some(j) = json::parse(line) {
-                let g = |k: &str| j.get(k).and_then(|x: &J| x.str()).unwrap_or("").to_string();
-                out.push(KnownFinding {
-                    property: g("property"),
-                    signature: g("signature"),
-                    status: g("status"),
-                    what: g("what"),
-                    commit: g("commit"),
-                });
-            }
+            out.push(KnownFinding { property, signature, status: status.to_string(), what: what.join(" "), commit });
         }
     }
     out
